@@ -750,6 +750,10 @@ func (view *View) Limit(ctx context.Context, scope *ReferenceScope, clause parse
 		percentage := number.(*value.Float).Raw()
 		value.Discard(number)
 
+		if math.IsNaN(percentage) {
+			return NewInvalidLimitPercentageError(clause)
+		}
+
 		if 100 < percentage {
 			limit = view.RecordLen()
 		} else if percentage < 0 {
